@@ -243,6 +243,20 @@ def _sentinels(S, strict):
         return []
 
 
+def probe_exclude_final_output() -> bool:
+    """does `ford.parse_arguments` exclude an output directory that only the command line names?"""
+    common.import_ford()
+    import ford
+    from ford.settings import ProjectSettings
+
+    with common.scratch_dir("ford-probe-") as d:
+        (d / "src").mkdir()
+        with common.quiet():
+            data, _ = ford.parse_arguments({"output_dir": "elsewhere"}, "", ProjectSettings(src_dir=["src"]), str(d))
+        out = data.output_dir
+        return any(str(x) == str(out) for x in data.exclude_dir)
+
+
 def translate():
     t = extract()
     out = ["/- GENERATED by translate/c15.py from ford/settings.py and ford/__init__.py - do not edit -/",
@@ -275,6 +289,9 @@ def translate():
     out.append("def sentinelTests : List (Str × Bool × Str × SentinelRepl) := [")
     out.append(",\n".join(f"  ({lstr(f)}, {'true' if c else 'false'}, {lstr(sn)}, SentinelRepl.{r})" for f, c, sn, r in t["sentinels"]))
     out.append("]\n")
+    out.append("/-- `parse_arguments` puts the final output directory (after `--config` / `-o`) on `exclude_dir` when it is not")
+    out.append("    there yet (repair 4833068); decided by running the real `parse_arguments` with `-o` -/")
+    out.append(f"def excludeFinalOutputDir : Bool := {'true' if probe_exclude_final_output() else 'false'}\n")
     out.append("end Ford.Generated\n")
     common.write_if_changed(common.LEAN / "FordModel" / "Generated" / "C15.lean", "\n".join(out))
     return t
